@@ -11,6 +11,7 @@ import Biogo.Proofs.ContGrid
 import Biogo.Proofs.ContCons
 import Biogo.Proofs.ContAln
 import Biogo.Proofs.ContAppend
+import Biogo.Proofs.ContSepWorld
 import Biogo.Generated.Alphabets
 
 namespace Biogo.Properties.C07
@@ -387,5 +388,92 @@ theorem initial_multi_wellformed (cx : Ctx) (strand : Int) (rows : List SeqSpec)
     | [.multi m] => RowsCapWF (initWorld cx "multi" strand rows).cells m.rows
     | _ => False :=
   newLins_rowsCapWF cx Heap.empty rows
+
+/-! ### every reachable state is well formed
+
+The theorems above assume well-formedness of the container they speak about (`ColsWF`,
+`Aln.ColsValid`, `c.len ≤ c.cap`, `RowsCapWF`, `RowsWF`, `Lin.Valid`).  `WorldWF` (defined in
+Proofs/ContSep.lean) packages these for every object of a world, together with the separation
+of objects and caller buffers; it holds of the initial object of every history and is preserved
+by every operation, so the hypotheses hold of every state a history reaches. -/
+
+/-- **preservation**: `AppendColumns`, `AppendEach`, `Delete`, `Add`, `Flush`, `Truncate`,
+    `Subseq`, `Clone` — and every other operation of the histories, error returns and panics
+    included — take a well-formed world to a well-formed world -/
+theorem operation_preserves_wellformed (cx : Ctx) (w : World) (hw : WorldWF w) (op : Op) :
+    WorldWF (apply cx w op).1 :=
+  (step_all cx w hw op).1
+
+/-- **Reach**: every state reachable from a constructor (`linear.NewSeq/NewQSeq`,
+    `alignment.NewSeq/NewQSeq`, `multi.NewMulti`, `multi.Set`) by the modelled operations is
+    well formed -/
+theorem reachable_wellformed (cx : Ctx) (kind : String) (strand : Int) (rows : List SeqSpec) (ops : List Op) :
+    WorldWF (runOps cx (initWorld cx kind strand rows) ops) :=
+  reach_wf cx kind strand rows ops
+
+/-- what `WorldWF` gives for one object: exactly the hypotheses of the theorems of this file and
+    of C05 — for a column-stored alignment `ColsWF` for some number of rows `n` (which is
+    `Rows()` whenever there is a column), capacities, `ColsValid`, offset 0; for a multi
+    `RowsCapWF` and `RowsWF`; for a linear sequence `Lin.Valid` -/
+theorem wellformed_gives_hypotheses (w : World) (hw : WorldWF w) (k : Nat) :
+    (∀ a, w.objs[k]? = some (.aln a) →
+      a.off = 0 ∧ a.ColsValid w.cells ∧ (∀ c ∈ a.cols, c.len ≤ c.cap) ∧
+      ∃ n, ColsWF w.cells n a.cols ∧ (a.cols ≠ [] → a.rows = n)) ∧
+    (∀ m, w.objs[k]? = some (.multi m) → RowsCapWF w.cells m.rows ∧ RowsWF w.cells m.rows) ∧
+    (∀ m, w.objs[k]? = some (.set m) → RowsCapWF w.cells m.rows ∧ RowsWF w.cells m.rows) ∧
+    (∀ l, w.objs[k]? = some (.lin l) → l.Valid w.cells) := by
+  refine ⟨?_, ?_, ?_, ?_⟩
+  · intro a hk
+    obtain ⟨h0, n, hc⟩ := hw.obj k _ hk
+    refine ⟨h0, fun c hm => (hc.1.1 c hm).1, hc.cap, n, hc.toColsWF, ?_⟩
+    intro hne
+    cases hcols : a.cols with
+    | nil => exact (hne hcols).elim
+    | cons c cs =>
+      simp only [Aln.rows, Aln.rows?, hcols, List.head?_cons, Option.map_some, Option.getD_some]
+      exact hc.2 c (by rw [hcols]; exact List.mem_cons_self)
+  · intro m hk
+    have := hw.obj k _ hk
+    exact ⟨this, RowsCapWF.toRowsWF this⟩
+  · intro m hk
+    have := hw.obj k _ hk
+    exact ⟨this, RowsCapWF.toRowsWF this⟩
+  · intro l hk
+    exact CapValid.toValid (hw.obj k _ hk)
+
+/-- `clone_deep` for the edit histories of C07 (column-stored alignments and multis, all edit
+    operations, caller buffers): C05's `clone_deep_all`, restated here with the same proof -/
+theorem clone_deep_edits (cx : Ctx) (w : World) (hw : WorldWF w) (k : Nat) (o : Obj)
+    (hk : w.objs[k]? = some o) (hclonable : ∀ m, o ≠ .set m) (ops : List Op) :
+    let w1 := (apply cx w (.clone k)).1
+    ∃ c, w1.objs[w.objs.length]? = some c ∧ viewObj cx w1.cells c = viewObj cx w.cells o ∧
+      ((∀ op ∈ ops, op.written ≠ some k) →
+        (runOps cx w1 ops).objs[k]? = some o ∧
+        viewObj cx (runOps cx w1 ops).cells o = viewObj cx w.cells o) ∧
+      ((∀ op ∈ ops, op.written ≠ some w.objs.length) →
+        (runOps cx w1 ops).objs[w.objs.length]? = some c ∧
+        viewObj cx (runOps cx w1 ops).cells c = viewObj cx w.cells o) := by
+  intro w1
+  obtain ⟨c, hc, hobs⟩ := clone_view_equal cx w hw k o hk hclonable
+  obtain ⟨hw1, hoth1⟩ := step_all cx w hw (.clone k)
+  obtain ⟨hk1, hko⟩ := hoth1 k o (by simp [Op.written]) hk
+  refine ⟨c, hc, hobs, ?_, ?_⟩
+  · intro hnot
+    have r := untouched_all cx ops w1 hw1 k o hk1 hnot
+    exact ⟨r.1, r.2.trans hko⟩
+  · intro hnot
+    have r := untouched_all cx ops w1 hw1 w.objs.length c hc hnot
+    exact ⟨r.1, r.2.trans hobs⟩
+
+/-- **append_no_retain, over histories**: after `AppendColumns` / `AppendEach` from caller
+    buffers, any later sequence of writes to caller buffers (`mut`), creation of buffers and
+    operations on other objects leaves the alignment / multi observed exactly as it was — the
+    general form of `append_no_retain_aln`, for every container kind -/
+theorem append_no_retain_history (cx : Ctx) (w : World) (hw : WorldWF w) (app : Op) (k : Nat) (o' : Obj)
+    (hk' : (apply cx w app).1.objs[k]? = some o') (later : List Op)
+    (hnot : ∀ op ∈ later, op.written ≠ some k) :
+    (runOps cx (apply cx w app).1 later).objs[k]? = some o' ∧
+    viewObj cx (runOps cx (apply cx w app).1 later).cells o' = viewObj cx (apply cx w app).1.cells o' :=
+  untouched_all cx later _ (step_all cx w hw app).1 k o' hk' hnot
 
 end Biogo.Properties.C07
